@@ -650,6 +650,35 @@ def instantiate(ground, qfacts, registry, rounds=2, hints=(), max_insts=6000, us
                     ax, m = sum_pair_axiom(s1, a1, s2, a2)
                     new.append(ax)
                     singles[m.get_id()] = m
+        # uninterpreted functions with array arguments: extensionality, skolemised per pair of occurrences
+        # ( (forall i. A[i] = B[i]) => f(A) = f(B)  is  exists w. (A[w] = B[w] => f(A) = f(B)) )
+        for name in getattr(registry, 'uf_arrays', {}):
+            occ = list(apps.get(name, {}).items())
+            if len(occ) > 12:
+                occ = occ[:12]
+            for (i1, a1), (i2, a2) in itertools.combinations(occ, 2):
+                key = ('ufext', i1, i2)
+                if key in seen_pairs:
+                    continue
+                seen_pairs.add(key)
+                conds = []
+                for x, y in zip(a1.children(), a2.children()):
+                    if x.sort().kind() == z3.Z3_ARRAY_SORT:
+                        if x.eq(y):
+                            continue
+                        nd = 1
+                        try:
+                            nd = z3.Z3_get_array_arity(x.ctx.ref(), x.sort().ast)
+                        except Exception:
+                            nd = 1
+                        ws = [fresh('extw') for _ in range(nd)]
+                        for w in ws:
+                            singles[w.get_id()] = w
+                            extra_terms.append(w)
+                        conds.append(z3.Select(x, *ws) == z3.Select(y, *ws))
+                    else:
+                        conds.append(x == y)
+                new.append(z3.Implies(z3.And(*conds) if conds else z3.BoolVal(True), a1 == a2))
         # theory hooks (e.g. row-major addressing facts of vf/flat.py): per occurrence and per pair of occurrences
         for hook in getattr(registry, 'hooks', []):
             new.extend(hook(apps, seen_spec, seen_pairs, singles))
